@@ -425,7 +425,7 @@ SUBCHECKS = [
         doc="pad_region moves W/E by the east pad and S/N by the north pad outwards; the opposite pad restores the region"),
     Sub("project_region", check_projection, strategy=projection_cases(), quick=500, thorough=2000,
         doc="bounding box of the projected region for monotone, general linear and node-centred quadratic projections"),
-    Sub("large", check_large, strategy=large_cases(), quick=15, thorough=80,
+    Sub("large", check_large, strategy=large_cases(), quick=15, thorough=80, heavy=True,
         doc="inside / get_region on 20 000 - 200 000 points (1-D and 2-D) against the vectorised closed-box predicate"),
     Sub("maxabs", check_maxabs, strategy=maxabs_cases(), quick=800, thorough=3000,
         doc="largest absolute value over all arrays, NaN-aware by default"),
